@@ -116,14 +116,21 @@ func (f *decompressor) step() (err error) {
 		return io.EOF
 	}
 
-	if state.input == nil {
-		state.input, err = f.rBuf.Peek(f.rBuf.Size())
-		f.peekSize = len(state.input)
+	if state.input == nil && state.phase != phaseStreamEnd {
+		// (Once the final block has been decoded no further input is needed.)
+		// Wait only for the first byte that is not already held in the bit buffer,
+		// then take whatever the source has delivered so far: waiting for a full
+		// buffer would withhold data that is already decodable (and let a later
+		// source error pre-empt it).
+		retained := int(f.state.bitsLen / 8)
+		_, err = f.rBuf.Peek(retained + 1)
 		if err != nil && err != bufio.ErrBufferFull && err != io.EOF {
 			return err
 		}
 		f.eof = err == io.EOF
-		state.input = state.input[f.state.bitsLen/8:]
+		state.input, _ = f.rBuf.Peek(f.rBuf.Buffered())
+		f.peekSize = len(state.input)
+		state.input = state.input[retained:]
 	}
 	f.readPos = f.writePos
 
@@ -147,6 +154,7 @@ func (f *decompressor) step() (err error) {
 			}
 		}
 		f.state.input = nil
+		f.peekSize = 0
 		if err == errEndInput {
 			return io.ErrUnexpectedEOF
 		}
@@ -154,6 +162,7 @@ func (f *decompressor) step() (err error) {
 		return
 	}
 
+	outputFull := err == errOutputOverflow
 	err = nil
 	if state.phase == phaseStreamEnd && f.writePos == f.readPos {
 		state.phase = phaseFinish
@@ -167,7 +176,16 @@ func (f *decompressor) step() (err error) {
 				return err
 			}
 		}
-		f.state.input = nil
+		if outputFull && state.phase != phaseFinish {
+			// Decoding stopped for lack of output space, not of input: the bit buffer may
+			// still hold decodable symbols. Keep an empty (non-nil) input so that the next
+			// step decodes them before it asks the source for more.
+			f.state.input = f.state.input[:0]
+			f.peekSize = int(state.bitsLen / 8)
+		} else {
+			f.state.input = nil
+			f.peekSize = 0
+		}
 	}
 	return
 }
